@@ -4,20 +4,26 @@ package main
 // gm_handshake_messages.go `unmarshal` / `marshal`, compared with the Lean model Model.TLSMessages
 // (Driver/TLSMessages.lean).
 //
-//   hsmsg <kind> <hex>   -> ok <dump> | reject
+//   hsmsg <kind> <hex>          -> ok <dump> | reject
+//   hsmsgm <kind> <fields>...   -> <hex of marshal() of a fresh struct with these fields>
 //
 // <kind>: the names of gmtls.VerifHandshakeKinds. <dump>: what gmtls.VerifDumpHandshake prints (tokens
 // name=value; byte strings hex, "-" when empty; numbers decimal; lists joined by ","; the last token is
-// marshal=<hex of marshal() of a fresh struct with the parsed fields>).
+// marshal=<hex of marshal() of a fresh struct with the parsed fields>). <fields>: the tokens of a dump without
+// marshal=, in the same order; values outside the ranges of the length fields are allowed (what marshal does
+// with them is part of the model).
 
 import (
+	"fmt"
 	"sort"
+	"strings"
 
 	"github.com/tjfoc/gmsm/gmtls"
 )
 
 func init() {
 	evals["hsmsg"] = c15cEvalHsmsg
+	evals["hsmsgm"] = c15cEvalHsmsgm
 	// stand-alone entry for development (`h gen C15codec <seed> <tier>`); not part of gens["C15"]
 	gens["C15codec"] = c15cGen
 }
@@ -48,6 +54,17 @@ func c15cEvalHsmsg(args []string) string {
 		return "reject"
 	}
 	return "ok " + dump
+}
+
+func c15cEvalHsmsgm(args []string) string {
+	if len(args) < 1 {
+		return "bad-op"
+	}
+	out := gmtls.VerifMarshalHandshakeFields(args[0], strings.Join(args[1:], " "))
+	if out == nil {
+		return "bad-op"
+	}
+	return hx(out)
 }
 
 // ---- layout of a valid message: where its length fields are ---------------------------------------------
@@ -519,7 +536,21 @@ func c15cGen(r *rng, tier string, emit func(string)) {
 		op("serverHello", c15cRandomHello(r, true))
 	}
 
-	// 7. fixed cases: the corner cases of the certificate list
+	// 7. marshal: the fields every accepted sample was parsed into, and fields outside the ranges of the length
+	//    fields (what marshal writes then is part of the model: lengths reduced modulo 2^8 / 2^16, names cut to
+	//    255 bytes, zero padding)
+	for _, kind := range kinds {
+		for _, s := range append(append([][]byte{}, small[kind]...), big[kind]...) {
+			if ok, dump := gmtls.VerifDumpHandshake(kind, s); ok {
+				if i := strings.LastIndex(dump, "marshal="); i >= 0 {
+					emit(strings.TrimRight("hsmsgm "+kind+" "+dump[:i], " "))
+				}
+			}
+		}
+	}
+	c15cGenMarshal(r, thorough, emit)
+
+	// 8. fixed cases: the corner cases of the certificate list
 	for _, b := range [][]byte{
 		{11, 0, 0, 3, 0, 0, 0},                                   // empty list
 		{11, 0, 0, 6, 0, 0, 3, 0, 0, 0},                          // one empty certificate: its 3 length bytes are < 4 bytes
@@ -539,5 +570,131 @@ func c15cGen(r *rng, tier string, emit func(string)) {
 		{11, 0, 0, 7, 0, 0, 3, 0, 0, 1, 0xaa},                    // list one shorter than the message
 	} {
 		op("certificate", b)
+	}
+}
+
+func c15cListField(l [][]byte) string {
+	if len(l) == 0 {
+		return "-"
+	}
+	out := make([]string, len(l))
+	for i, b := range l {
+		if len(b) == 0 {
+			out[i] = "."
+		} else {
+			out[i] = hx(b)
+		}
+	}
+	return strings.Join(out, ",")
+}
+
+func c15cNumsField(n []int) string {
+	if len(n) == 0 {
+		return "-"
+	}
+	out := make([]string, len(n))
+	for i, v := range n {
+		out[i] = fmt.Sprint(v)
+	}
+	return strings.Join(out, ",")
+}
+
+func c15cB(b bool) int {
+	if b {
+		return 1
+	}
+	return 0
+}
+
+// c15cGenMarshal: hsmsgm ops with field values on and beyond the boundaries of the length fields.
+func c15cGenMarshal(r *rng, thorough bool, emit func(string)) {
+	m := func(kind, format string, a ...interface{}) {
+		emit(strings.TrimRight("hsmsgm "+kind+" "+fmt.Sprintf(format, a...), " "))
+	}
+	rndList := func(n int, lens []int) [][]byte {
+		var l [][]byte
+		for i := 0; i < n; i++ {
+			l = append(l, r.bytes(r.pick(lens)))
+		}
+		return l
+	}
+	rndNums := func(n int) []int {
+		var l []int
+		for i := 0; i < n; i++ {
+			l = append(l, r.pick([]int{0, 1, 23, 255, 256, 0x0403, 0xe013, 0x00ff, 0xffff}))
+		}
+		return l
+	}
+	m("serverHelloDone", "")
+	m("helloRequest", "")
+	for _, l := range [][][]byte{nil, {{}}, {r.bytes(1), {}}, {{}, {}, r.bytes(2)}, {r.bytes(255), r.bytes(256)}, {r.bytes(65536), r.bytes(1)}} {
+		m("certificate", "certs=%s", c15cListField(l))
+	}
+	for _, n := range []int{0, 1, 2, 255, 256, 257, 65535, 65536, 65537} {
+		b := r.bytes(n)
+		m("serverKeyExchange", "key=%s", hx(b))
+		m("clientKeyExchange", "ciphertext=%s", hx(b))
+		m("finished", "verifyData=%s", hx(b)) // one length byte
+		m("newSessionTicket", "ticket=%s", hx(b))
+		m("certificateVerify", "sigalg=%d sig=%s", r.pick([]int{0, 0x0403, 65535}), hx(b)) // algorithm not written
+		m("certificateVerify+sh", "sigalg=%d sig=%s", r.pick([]int{0, 0x0403, 256, 65535}), hx(b))
+		m("certificateStatus", "statusType=1 response=%s", hx(b))
+		m("certificateStatus", "statusType=%d response=%s", r.pick([]int{0, 2, 255}), hx(b)) // response not written
+	}
+	for _, n := range []int{0, 1, 2, 29, 30, 31, 61, 62, 63, 254, 255, 256, 257, 300} {
+		m("nextProto", "proto=%s", hx(r.bytes(n))) // padding to a multiple of 32, at most 255 bytes of the name
+	}
+	for _, nt := range []int{0, 1, 2, 255, 256, 257} {
+		for k := 0; k < 3; k++ {
+			types := hx(r.bytes(nt))
+			cas := rndList(r.intn(4), []int{0, 1, 2, 50})
+			if k == 2 {
+				cas = [][]byte{r.bytes(65536), r.bytes(40000), r.bytes(30000)} // entry and total beyond 16 bits
+			}
+			algs := rndNums(r.intn(4))
+			m("certificateRequest", "types=%s sigalgs=%s cas=%s", types, c15cNumsField(algs), c15cListField(cas)) // algorithms not written
+			m("certificateRequest+sh", "types=%s sigalgs=%s cas=%s", types, c15cNumsField(algs), c15cListField(cas))
+			m("certificateRequestGM", "types=%s cas=%s", types, c15cListField(cas))
+		}
+	}
+	nHello := 40
+	if thorough {
+		nHello = 600
+	}
+	lens := func(special []int) int {
+		if r.chance(1, 3) {
+			return r.pick(special)
+		}
+		return r.intn(6)
+	}
+	for i := 0; i < nHello; i++ {
+		// ServerHello: random and session id of any length, NPN names up to 300 bytes (cut to 255: zero bytes remain
+		// at the end), flags and data combined freely; an ALPN name of 256 bytes or more would panic
+		npn := rndList(r.intn(4), []int{0, 1, 2, 5, 254, 255, 256, 300})
+		m("serverHello", "vers=%d random=%s sessionId=%s suite=%d comp=%d npn=%d nextProtos=%s ocsp=%d scts=%s ticket=%d reneg=%s renegSupported=%d alpn=%s",
+			r.pick([]int{0, 0x0101, 0x0303, 65535}), hx(r.bytes(r.pick([]int{32, 32, 32, 0, 1, 31, 33, 40}))),
+			hx(r.bytes(r.pick([]int{0, 32, 1, 33, 255, 256, 257}))), r.pick([]int{0, 0xe013, 0xc02f, 65535}), r.pick([]int{0, 1, 255}),
+			r.intn(2), c15cListField(npn), r.intn(2), c15cListField(rndList(r.intn(4), []int{0, 1, 2, 50, 300})), r.intn(2),
+			hx(r.bytes(lens([]int{0, 12, 254, 255, 256}))), r.intn(2), hx(r.bytes(lens([]int{0, 1, 2, 255}))))
+		// ClientHello: an ALPN name that is empty or longer than 255 bytes would panic
+		var alpn [][]byte
+		for k := r.intn(4); k > 0; k-- {
+			alpn = append(alpn, r.bytes(r.pick([]int{1, 2, 8, 255})))
+		}
+		nsuites := r.intn(5)
+		if r.chance(1, 8) {
+			nsuites = r.pick([]int{127, 128, 129, 255, 256})
+		}
+		m("clientHello", "vers=%d random=%s sessionId=%s suites=%s comps=%s npn=%d serverName=%s ocsp=%d scts=%d curves=%s points=%s ticketSupported=%d ticket=%s sigalgs=%s reneg=%s renegSupported=%d alpn=%s",
+			r.pick([]int{0, 0x0101, 0x0303, 65535}), hx(r.bytes(r.pick([]int{32, 32, 32, 0, 1, 31, 33, 40}))),
+			hx(r.bytes(r.pick([]int{0, 32, 1, 33, 255, 256, 257}))), c15cNumsField(rndNums(nsuites)), hx(r.bytes(lens([]int{0, 1, 255, 256, 257}))),
+			r.intn(2), hx(r.bytes(lens([]int{0, 1, 255, 256, 1000}))), r.intn(2), r.intn(2), c15cNumsField(rndNums(r.intn(4))),
+			hx(r.bytes(lens([]int{0, 1, 254, 255, 256}))), r.intn(2), hx(r.bytes(lens([]int{0, 1, 200, 1000}))), c15cNumsField(rndNums(r.intn(4))),
+			hx(r.bytes(lens([]int{0, 12, 254, 255, 256}))), r.intn(2), c15cListField(alpn))
+	}
+	if thorough {
+		// 32768 cipher suites: the two length bytes uint8(n >> 7), uint8(n << 1) wrap to 0
+		m("clientHello", "vers=771 random=%s sessionId=- suites=%s comps=00 npn=0 serverName=%s ocsp=0 scts=0 curves=- points=- ticketSupported=0 ticket=- sigalgs=- reneg=- renegSupported=0 alpn=-",
+			hx(r.bytes(32)), c15cNumsField(rndNums(32768)), hx(r.bytes(65533))) // and a server name whose extension length passes 2^16
 	}
 }
